@@ -158,6 +158,8 @@ theorem hit_step (w : World) (op : Op σ) (c i : Bytes) (hh : hit c i op (step H
   | transferOwnership auths new => simp only [step] at hh; split at hh <;> simp [hit] at hh
   | transferOperatorship auths new => simp only [step] at hh; split at hh <;> simp [hit] at hh
   | setTime now => simp [hit] at hh
+  | upgrade auths => simp [hit] at hh
+  | migrate auths => simp [hit] at hh
 
 theorem consumptions_bound (w : World) (ops : List (Op σ)) (c i : Bytes) :
     consumptions c i ops (run H V w ops).2 ≤ 1 ∧
@@ -379,6 +381,12 @@ theorem step_executed_new (w : World) (op : Op σ) (c i : Bytes)
       · cases hr; exact h1
     · exact h1
   | setTime now => exact Or.inl h1
+  | upgrade auths =>
+    obtain ⟨b, hb⟩ := step_upgrade_fst H V w auths
+    rw [hb] at h1; exact Or.inl h1
+  | migrate auths =>
+    obtain ⟨b, hb⟩ := step_migrate_fst H V w auths
+    rw [hb] at h1; exact Or.inl h1
 
 theorem trace_cons (w : World) (op : Op σ) (ops : List (Op σ)) :
     trace H V w (op :: ops) = (w, op, (step H V w op).2) :: trace H V (step H V w op).1 ops := rfl
@@ -424,6 +432,15 @@ theorem executed_was_consumed (owner operator : Addr) (domain : Bytes) (minDelay
   · exact h1
 
 /-! ### non-vacuity (the model RUN in the kernel on a concrete history, toy hash) -/
+/-- `upgrade` (to the same code) and `migrate` never touch an approval record, whoever calls them and whether they succeed or
+    not (the history theorems above range over these two operations as well) -/
+theorem admin_steps_keep_approvals (w : World) (auths : List Addr) :
+    (step H V w (.upgrade auths)).1.st.approvals = w.st.approvals ∧ (step H V w (.migrate auths)).1.st.approvals = w.st.approvals := by
+  obtain ⟨b, hb⟩ := step_upgrade_fst H V w auths
+  obtain ⟨c, hc⟩ := step_migrate_fst H V w auths
+  rw [hb, hc]
+  exact ⟨rfl, rfl⟩
+
 section NonVacuity
 open Cgp.Toy
 
